@@ -43,12 +43,19 @@ type caCase struct {
 	Params    string // explicit | named
 	KeyArr    string // "none" | "id1" | "id0" | "two-keys"
 	Strategy  string // ChipAuth.tla
+	Arr       []arrKey // CaSelect.tla arrangement (overrides KeyArr): the keys in DG14 order
+	WantKey   int      // CaSelect.tla: index (1-based) of the key both sides settle on
+	WantSuite string   // CaSelect.tla: suite the terminal uses
 	ForceZero bool
 	Seed      int64
 }
 
 func (k caCase) String() string {
-	return fmt.Sprintf("CA-%s id=%d %s keys=%s strategy=%s zero=%v", caOidName(k.OID), k.ParamID, k.Params, k.KeyArr, k.Strategy, k.ForceZero)
+	arr := k.KeyArr
+	if k.Arr != nil {
+		arr = arrName(k.Arr)
+	}
+	return fmt.Sprintf("CA-%s id=%d %s keys=%s strategy=%s zero=%v", caOidName(k.OID), k.ParamID, k.Params, arr, k.Strategy, k.ForceZero)
 }
 
 type caOutcome struct {
@@ -56,21 +63,64 @@ type caOutcome struct {
 	chipAnswered                                                   int
 	err                                                            string
 	forced                                                         bool
+	chipOID                                                        string
+	chipKeyID                                                      int
 }
 
 func ip(i int) *int { return &i }
+
+// arrKey is one key of a CaSelect.tla arrangement.
+type arrKey struct {
+	Kid  int    // key id on the public key info, -1 = absent
+	Info string // "none" | "3des" | "aes128" | "aes256"
+	Ikid int    // key id on the ChipAuthenticationInfo, -1 = absent
+}
+
+// arrName: "key<kid>/<info><ikid>" per key, "-" = absent
+func arrName(a []arrKey) string {
+	id := func(i int) string {
+		if i < 0 {
+			return "-"
+		}
+		return fmt.Sprint(i)
+	}
+	var parts []string
+	for _, k := range a {
+		parts = append(parts, "key"+id(k.Kid)+"/"+k.Info+id(k.Ikid))
+	}
+	return strings.Join(parts, "+")
+}
+
+var caSuiteOID = map[string]string{"none": "", "3des": chipsim.OIDCaEcdh3Des, "aes128": chipsim.OIDCaEcdhAes128, "aes256": chipsim.OIDCaEcdhAes256}
 
 func runCA(k caCase) caOutcome {
 	rnd := rand.New(rand.NewSource(k.Seed))
 	var out caOutcome
 	o := perso.Options{Seed: k.Seed, BAC: true, IssuerTrusted: true, Transport: chipsim.Transport{ExtendedLength: true}}
 	spec := perso.CASpec{OID: k.OID, ParamID: k.ParamID, Params: k.Params, ForeignDG14: k.Strategy == "other-key"}
+	switch {
+	case k.Arr != nil:
+		for _, a := range k.Arr {
+			sp := perso.CASpec{OID: caSuiteOID[a.Info], ParamID: k.ParamID, Params: k.Params}
+			if a.Kid >= 0 {
+				sp.KeyID = ip(a.Kid)
+				sp.InfoNoKeyID = a.Info != "none" && a.Ikid < 0
+			}
+			o.CA = append(o.CA, sp)
+		}
+	}
 	switch k.KeyArr {
+	case "arr":
 	case "id1":
 		spec.KeyID = ip(1)
 		o.CA = []perso.CASpec{spec}
 	case "id0":
 		spec.KeyID = ip(0)
+		o.CA = []perso.CASpec{spec}
+	case "key-only-id1", "key-only-id0":
+		// keyId is OPTIONAL in both infos independently: a single key that carries one while its info does not
+		spec.KeyID = ip(map[string]int{"key-only-id1": 1, "key-only-id0": 0}[k.KeyArr])
+		spec.InfoNoKeyID = true
 		o.CA = []perso.CASpec{spec}
 	case "two-keys":
 		first := perso.CASpec{OID: chipsim.OIDCaEcdh3Des, ParamID: k.ParamID, Params: k.Params, KeyID: ip(1)}
@@ -192,6 +242,11 @@ func runCA(k caCase) caOutcome {
 	s.Link.Script = nil
 	tr := chip.Truth()
 	out.chipCompleted, out.chipAnswered = tr.CaCompleted, tr.CaAnswered
+	out.chipOID = tr.CaOID
+	out.chipKeyID = -1
+	if tr.CaKeyID != nil {
+		out.chipKeyID = *tr.CaKeyID
+	}
 	if sm := s.Nfc.SM(); sm != nil && tr.SM.Alive {
 		out.keysEqual = bytes.Equal(sm.KsEnc(), tr.SM.KSenc) && tr.SM.Origin == "CA"
 		out.sscEqual = bytes.Equal(sm.SSC(), tr.SM.SSC)
@@ -238,7 +293,7 @@ func C06(c *core.Ctx) {
 	for _, id := range ids {
 		for _, oid := range oids {
 			for _, params := range []string{"explicit", "named"} {
-				for _, arr := range []string{"none", "id1", "id0", "two-keys"} {
+				for _, arr := range []string{"none", "id1", "id0", "two-keys", "key-only-id1", "key-only-id0"} {
 					n++
 					if !c.Thorough() && n%5 != 0 {
 						continue
@@ -255,12 +310,19 @@ func C06(c *core.Ctx) {
 	if !c.Thorough() {
 		k := 0
 		for _, oid := range oids {
-			for _, arr := range []string{"none", "id1", "id0", "two-keys"} {
+			for _, arr := range []string{"none", "id1", "id0", "two-keys", "key-only-id1", "key-only-id0"} {
 				k++
 				add(caCase{OID: oid, ParamID: ids[(k*3)%len(ids)], Params: []string{"explicit", "named"}[k%2], KeyArr: arr, Strategy: "genuine"})
 			}
 		}
 	}
+	// every conforming DG14 arrangement of CaSelect.tla (keys x optional infos x independent key ids)
+	arrs := c06Arrangements(c)
+	for i, a := range arrs {
+		a.ParamID, a.Params = ids[(i*7)%len(ids)], []string{"explicit", "named"}[i%2]
+		add(a)
+	}
+	c.Extra["dg14_arrangements_of_CaSelect"] = len(arrs)
 	for st := range specRes {
 		if st == "genuine" {
 			continue
@@ -299,8 +361,14 @@ func C06(c *core.Ctx) {
 				key = "C06:shared-secret-with-leading-zero-octet"
 			case k.KeyArr == "id0":
 				key = "C06:key-id-0"
+			case strings.HasPrefix(k.KeyArr, "key-only-id"):
+				key = "C06:key-id-on-public-key-only"
+			case k.Arr != nil:
+				key = "C06:arrangement-" + arrName(k.Arr)
 			}
 			c.Violation(key, fmt.Sprintf("Chip Authentication against the chip holding the certified key did not complete (%s): %+v", k, o), rp)
+		case want && k.Arr != nil && (o.chipKeyID != k.Arr[k.WantKey-1].Kid || o.chipOID != caSuiteOID[k.WantSuite]):
+			c.Violation("C06:arrangement-other-key-or-suite-"+arrName(k.Arr), fmt.Sprintf("Chip Authentication completed with another key / suite than CaSelect.tla settles on (want key %d suite %s): %+v", k.WantKey, k.WantSuite, o), rp)
 		case !want && o.success:
 			c.Violation("C06:success-with-"+k.Strategy, fmt.Sprintf("Chip Authentication reported successful although the chip did not prove the certified key (%s): %+v", k, o), rp)
 		}
@@ -309,4 +377,39 @@ func C06(c *core.Ctx) {
 	c.Extra["runs_with_forced_leading_zero_secret"] = forced
 	c.Sample(map[string]any{"case": cases[0].String(), "outcome": fmt.Sprintf("%+v", outs[0])})
 	c.Sample(map[string]any{"case": cases[len(cases)-1].String(), "outcome": fmt.Sprintf("%+v", outs[len(cases)-1])})
+}
+
+// c06Arrangements: the conforming DG14 arrangements enumerated by TLC from CaSelect.tla, with the key and suite the
+// specification says terminal and chip settle on; the "identical ids" design must yield its counterexample.
+func c06Arrangements(c *core.Ctx) []caCase {
+	r := c.MustTLC(core.TLCOpts{Module: "MC_CaSelect", Cfg: "MC_CaSelect.cfg", Workers: 4})
+	var out []caCase
+	seen := map[string]bool{}
+	for _, line := range r.Lines {
+		if !strings.HasPrefix(line, "<<\"A\"") || seen[line] {
+			continue
+		}
+		seen[line] = true
+		v, err := core.ParseTLA(line)
+		if err != nil {
+			core.Infra("C06: %v", err)
+		}
+		t := v.([]any)
+		k := caCase{KeyArr: "arr", Strategy: "genuine", WantSuite: core.Str(t[2]), WantKey: t[4].(int)}
+		for _, kr := range t[1].([]any) {
+			f := kr.([]any)
+			k.Arr = append(k.Arr, arrKey{Kid: f[0].(int), Info: core.Str(f[1]), Ikid: f[2].(int)})
+		}
+		k.OID = caSuiteOID[k.WantSuite]
+		out = append(out, k)
+	}
+	if len(out) != 121 {
+		core.Infra("C06: expected 121 conforming arrangements from MC_CaSelect, got %d", len(out))
+	}
+	if r2, err := c.TLC(core.TLCOpts{Module: "MC_CaSelect", Cfg: "MC_CaSelect_strict.cfg", Workers: 1}); err != nil {
+		core.Infra("%v", err)
+	} else if r2.OK {
+		core.Infra("MC_CaSelect_strict: the design demanding identical key ids must violate SelectOK, found no counterexample")
+	}
+	return out
 }
